@@ -698,9 +698,10 @@ fn run_iter(src: &str) -> String {
                 j(n.iter_write_variable_identifiers().map(hex).collect()),
                 j(n.iter_function_identifiers().map(hex).collect())
             );
+            let free2 = result_text(&n.eval());
             format!(
-                "OK ids[{}] vars[{}] reads[{}] writes[{}] fns[{}] nodes[{}] ops[{}] idsm[{}] varsm[{}] readsm[{}] writesm[{}] fnsm[{}] via<{}> adapt<{}> free<{}> mid<{}> after<{}> renamed{}",
-                a, b, c, d, e, nodes, ops, am, bm, cm, dm, em, others, adapt, free, mid, after, tree_text(&n)
+                "OK ids[{}] vars[{}] reads[{}] writes[{}] fns[{}] nodes[{}] ops[{}] idsm[{}] varsm[{}] readsm[{}] writesm[{}] fnsm[{}] via<{}> adapt<{}> free<{}> mid<{}> after<{}> free2<{}> renamed{}",
+                a, b, c, d, e, nodes, ops, am, bm, cm, dm, em, others, adapt, free, mid, after, free2, tree_text(&n)
             )
         },
     }
